@@ -128,32 +128,42 @@ def parseTokItem (s : String) : Option (Tok × Str) :=
   | ["ne", g] => do pure (.neOp, ← decL g)
   | _ => none
 
+/-- one item of the `layout` operation: a token item, or `lit|quote|body|gap` (a string literal) -/
+def parseItem (s : String) : Option LItem :=
+  match s.splitOn "|" with
+  | ["lit", q, body, g] => do
+    match (← decL q) with
+    | [qc] => pure (.lit { q := qc, body := (← decL body), gap := (← decL g) })
+    | _ => none
+  | _ => (parseTokItem s).map fun p => .tok p.1 p.2
+
 def firstSuffix (k : Char) : List (Tok × Str) → Str
   | [] => []
   | (.ref k' s _, _) :: rest => if k' = k then s else firstSuffix k rest
   | _ :: rest => firstSuffix k rest
 
-/-- the hypotheses of `escapeAssertion_layout` and `getExpression_layout` for a token sequence -/
-def layoutHyps (ts : List (Tok × Str)) : Bool :=
-  let sp := firstSuffix 'p' ts
-  let sr := firstSuffix 'r' ts
-  sp.all isDigit && sr.all isDigit && okFor 'p' sp false ts && okFor 'r' sr false (mapToks (escK 'p') ts) &&
-  wfToks (mapToks escTok ts)
+/-- the hypotheses of `matcherL_layout` (`escapeAssertionL_layout` and `getExpressionL_layout`) for a token
+    sequence with string literals: conditions on the runs between the literals only -/
+def layoutHyps (m : LToks) : Bool :=
+  let sp := firstSuffix 'p' m.runs.flatten
+  let sr := firstSuffix 'r' m.runs.flatten
+  sp.all isDigit && sr.all isDigit && okForL 'p' sp m && okForL 'r' sr (m.map (escK 'p')) &&
+  wfL (m.map escTok)
 
 def step (tbl : Table) (fs : List String) : Table × String :=
   match fs with
-  | ["getexpr", s] => (tbl, match decL s with | some s => encL (getExpression s) | none => "bad-op")
+  | ["getexpr", s] => (tbl, match decL s with | some s => encL (getExpressionL s) | none => "bad-op")
   | ["getexpr0", s] => (tbl, match decL s with | some s => encL (getExpressionUnrepaired s) | none => "bad-op")
-  | ["escape", s] => (tbl, match decL s with | some s => encL (escapeAssertion s) | none => "bad-op")
-  | ["rmcomment", s] => (tbl, match decL s with | some s => encL (removeComments s) | none => "bad-op")
+  | ["escape", s] => (tbl, match decL s with | some s => encL (escapeAssertionL s) | none => "bad-op")
+  | ["rmcomment", s] => (tbl, match decL s with | some s => encL (removeCommentsL s) | none => "bad-op")
   | ["strip", s] => (tbl, match decL s with | some s => encL (strip s) | none => "bad-op")
-  | ["haseval", s] => (tbl, match decL s with | some s => encBool (hasEval s) | none => "bad-op")
+  | ["haseval", s] => (tbl, match decL s with | some s => encBool (hasEvalL s) | none => "bad-op")
   | ["evalnames", s] =>
-    (tbl, match decL s with | some s => encList ((getEvalValue s).map encL) | none => "bad-op")
+    (tbl, match decL s with | some s => encList ((getEvalValueL s).map encL) | none => "bad-op")
   | ["replaceeval", s, rules] =>
     (tbl, match decL s, decStrList rules with
       | some s, some rules =>
-        (match replaceEval s (rules.map String.toList) with | some r => encL r | none => "!indexError")
+        (match replaceEvalL s (rules.map String.toList) with | some r => encL r | none => "!indexError")
       | _, _ => "bad-op")
   | ["tokens", k, v] =>
     (tbl, match decL k, decL v with
@@ -187,11 +197,14 @@ def step (tbl : Table) (fs : List String) : Table × String :=
       | some k => (match resultMatches k with | .ok b => encBool b | .error _ => "!resultType")
       | none => "bad-op")
   | ["layout", items] =>
-    (tbl, match (decList items).mapM parseTokItem with
-      | some ts =>
-        let src := render ts
-        "src=" ++ encL src ++ " model=" ++ encL (getExpression (escapeAssertion src)) ++
-        " spec=" ++ encL (renderPy ((mapToks escTok ts).map pad)) ++ " hyp=" ++ encBool (layoutHyps ts)
+    (tbl, match (decList items).mapM parseItem with
+      | some is =>
+        let src := renderItems is
+        let m := group is
+        "src=" ++ encL src ++ " model=" ++ encL (getExpressionL (escapeAssertionL src)) ++
+        " spec=" ++ encL (renderPyL (m.map escTok)) ++ " hyp=" ++ encBool (layoutHyps m) ++
+        " lits=" ++ encBool (literals (getExpressionL (escapeAssertionL src)) == m.litPieces) ++
+        " nlit=" ++ toString m.tail.length
       | none => "bad-op")
   | ["clearfn"] => ([], "ok")
   | ["deffn", name, args, res] =>
